@@ -846,7 +846,7 @@ Proof.
   sstep; [sstep|].
   sstep; [apply sound_lift with (Q := fun _ => True); auto|]. intros m0 _.
   sstep; [|sstep; [apply (sound_symeig _ h1 i o' true G1) | sstep]].
-  sstep; [apply sound_fresh_run|]. intros r _. sstep. intros v Hv. eapply (ko_diagz_lanczos KO); eauto.
+  sstep; [apply sound_fresh_run|]. intros r _. sstep; [sstep|]. sstep. intros v Hv. eapply (ko_diagz_lanczos KO); eauto.
 Qed.
 
 Lemma sound_diagonalization st fuel h0 i o args kw : get i h0 = Some o ->
